@@ -3,6 +3,17 @@
 // Verification hooks (build tag verif) for C05: read-only accessors. No behaviour of its own.
 package raftconn
 
+import "go.etcd.io/etcd/raft/v3"
+
 // VerifAppliedIndex returns the node's applied index (entries up to it are never published again).
 func (n *RaftNode) VerifAppliedIndex() uint64 { return n.appliedIndex }
 
+
+// VerifRaftStatus returns the status of the underlying etcd/raft node (leader id, progress).
+func (n *RaftNode) VerifRaftStatus() raft.Status { return n.node.Status() }
+
+// VerifDeleteEntryLog runs one round of the periodic leader-side entry-log truncation decision
+// (what deleteEntryLogPeriodically does every minute).
+func (n *RaftNode) VerifDeleteEntryLog() (error, error) {
+	return n.deleteEntryLog(), n.deleteEntryLogBySize()
+}
